@@ -204,3 +204,19 @@ Proof.
   - cbn [app parse_toks ps_incl ps_empty]. rewrite Hi. cbn [bind].
     rewrite <- (app_nil_r dts), (dur_step _ _ _ _ _ _ Hd). reflexivity.
 Qed.
+
+(* ---- --start-of-week ------------------------------------------------------------------------------ *)
+Lemma week_start_range : forall s d, week_start_of_text s = Ok d -> 0 <= d < 7.
+Proof.
+  intros s d. unfold week_start_of_text.
+  assert (H : forall l, Forall (fun e => 0 <= snd e < 7) l -> forall k v, assoc_str k l = Some v -> 0 <= v < 7).
+  { induction l as [|[k' v'] l IH]; intros F k v; cbn [assoc_str]; [discriminate|].
+    inversion F; subst. destruct (str_eqb k k'); [intros E; injection E as <-; assumption|apply IH; assumption]. }
+  destruct (assoc_str (map lower_byte s) week_day_names) as [v|] eqn:E; [|discriminate].
+  intros E'. injection E' as <-. apply (H week_day_names) with (k := map lower_byte s); [|exact E].
+  unfold week_day_names. repeat constructor; cbn; lia.
+Qed.
+
+Lemma week_start_case_insensitive : forall s s', map lower_byte s = map lower_byte s' ->
+  week_start_of_text s = week_start_of_text s'.
+Proof. intros s s' H. unfold week_start_of_text. rewrite H. reflexivity. Qed.
